@@ -1157,10 +1157,12 @@ pub fn panic_site(msg: &str) -> String {
 /// exceeds any constant soon (a retained frame is 18 B: 4 KiB are 230 frames).
 const BETWEEN_CONST: isize = 4096;
 
-/// Floor of C19.frame: single allocations up to this size are never questioned (a bounded
-/// backlog or read-ahead buffer of a kilobyte or two is not a raw link frame buffer; a buffer
-/// that swallows the stream passes any floor soon).
-const FRAME_ALLOC_FLOOR: isize = 4096;
+/// Floor of C19.frame: single allocations up to this size are never questioned (a raw link
+/// frame buffer stays within 255 B, 512 B with doubling). It was 4 KiB for a while, to
+/// tolerate a variant with a bounded backlog; that variant allocates 4.6 KiB in one piece
+/// anyway, and at 4 KiB an independent mutant whose raw frame buffer grows to 2 KiB within
+/// one poll went unreported.
+const FRAME_ALLOC_FLOOR: isize = 1024;
 
 /// Long traffic histories, heap measured after every poll.
 pub fn run_c19(sim: &Sim, prop: &str, tier: Tier) -> Outcome {
